@@ -535,26 +535,13 @@ def run(ctx):
                   and any(f'{var} is None' in norm(t) for t, pol in guards_of(n, u.fn) if pol)]
         ctx.ob('C10.resolver', f'{key}:no-namespace-raises', bool(raises),
                f'{key}: no PlanningException when neither a database nor a default namespace resolves the name', file=file, line=u.fn.lineno)
-    # D. qualifier strip -----------------------------------------------------------------------------------------------------
-    pis = [u for u in an.units if u.name == '_prepare_integration_select']
-    ctx.need(len(pis) == 1, 'callback _prepare_integration_select not found')
-    u = pis[0]
-    pops = [n for n in walk_no_nested(u.fn) if isinstance(n, ast.Call) and isinstance(n.func, ast.Attribute) and n.func.attr == 'pop']
-    ctx.need(len(pops) >= 1, 'prepare_integration_select: no parts.pop found')
-    for pop in pops:
-        parts_txt = norm(pop.func.value)
-        gs = guards_of(pop, u.fn)
-        st = an.state_at(u, pop) or {}
-        has_len = any(pol and is_len_gt1(t, parts_txt) for t, pol in gs)
-        eq = [t for t, pol in gs if pol and isinstance(t, ast.Compare) and isinstance(t.ops[0], ast.Eq) and f'{parts_txt}[0]' in norm(t)]
-        ok_eq = bool(eq) and all(an.lowered(t.left, st, u) and an.lowered(t.comparators[0], st, u) for t in eq)
-        ctx.ob('C10.qualifier-strip', 'len-guard', has_len, f'prepare_integration_select removes {parts_txt}[0] without requiring more than one part',
-               file=QP, line=pop.lineno)
-        ctx.ob('C10.qualifier-strip', 'normalised-comparison', ok_eq,
-               f'prepare_integration_select removes {parts_txt}[0] without a case-normalised comparison with the integration name: '
-               f'`INT1.tbl` keeps its qualifier (or another first part is removed) in the query sent to the integration', file=QP, line=pop.lineno)
-        ctx.ob('C10.qualifier-strip', 'index-0', isinstance(pop.args[0], ast.Constant) and pop.args[0].value == 0 if pop.args else False,
-               'the qualifier is the first part', file=QP, line=pop.lineno)
+    # D. qualifier strip: truth table of prepare_integration_select ------------------------------------------------------------------------
+    table = rewrite_table(ctx)
+    ctx.setcount('rewrite_rows', len(table))
+    ctx.floor('rewrite_rows', 1000)
+    for label, ok, msg, line in table:
+        if label.startswith('strip:') or label.startswith('raises:'):
+            ctx.ob('C10.qualifier-strip', label, ok, msg, file=QP, line=line, witness='select int1.tbl1.* from int1.tbl1')
     # E. models never reach the table branch ------------------------------------------------------------------------------
     pjt = units.get('PlanJoinTablesQuery.plan_join_tables')
     ctx.need(pjt is not None, 'plan_join_tables not found')
@@ -620,31 +607,10 @@ def run(ctx):
                        witness='select * from int1.t ta join proj.model.7 tb')
     ctx.setcount('model_step_sites', nap)
     ctx.floor('model_step_sites', 5)
-    # G. CTE exemption --------------------------------------------------------------------------------------------------------
-    gqi = units.get('QueryPlanner.get_query_info')
-    ctx.need(gqi is not None, 'get_query_info not found')
-    comps = [n for n in walk_no_nested(gqi.fn) if isinstance(n, ast.ListComp) and len(n.generators) == 1 and norm(n.generators[0].iter) == 'mdb_entities']
-    ctx.need(len(comps) == 1, 'get_query_info: the CTE filter over mdb_entities was not found')
-    comp = comps[0]
-    var = comp.generators[0].target.id
-    names_cmp = [n for n in walk_no_nested(gqi.fn) if isinstance(n, ast.Assign) and norm(n.targets[0]) == 'cte_names']
-    ctx.need(names_cmp, 'get_query_info: cte_names not found')
-    probes = [(['sales'], False, 'the CTE itself'), (['mindsdb', 'sales'], True, 'a project table with the CTE\'s name'),
-              (['proj', 'sales'], True, 'a table of another project'), (['other'], True, 'another unqualified name')]
-    for parts, keep, why in probes:
-        class _I:
-            pass
-        item = _I()
-        item.parts = parts
-        env = {var: item, 'cte_names': ['sales'], 'isinstance': lambda o, t: True, 'Identifier': 'Identifier', 'ast.Identifier': 'Identifier', 'len': len}
-        try:
-            got = all(_ev(c, env) for c in comp.generators[0].ifs)
-        except AnalysisError as e:
-            raise AnalysisError(f'get_query_info CTE filter: {e}')
-        ctx.ob('C10.cte-exemption', '.'.join(parts), bool(got) == keep,
-               f'get_query_info: with a CTE named `sales`, the table `{".".join(parts)}` ({why}) is {"kept" if got else "dropped"} as a MindsDB '
-               f'entity but must be {"kept" if keep else "dropped"}: the whole query is then pushed to one integration although it reads a project table',
-               file=QP, line=comp.lineno, witness='with sales as (select 1) select * from int1.t where a in (select a from mindsdb.sales)')
+    # G. classification of table references (CTE exemption, projects, integrations): get_query_info interpreted on probes
+    for label, ok, msg, line in query_info_table(ctx):
+        ctx.ob('C10.cte-exemption', label, ok, msg, file=QP, line=line,
+               witness='with sales as (select 1) select * from int1.t where a in (select a from mindsdb.sales)')
     ctx.floor('units', 60)
     ctx.floor('catalog_stores', 7)
     ctx.floor('lookups', 6)
@@ -652,6 +618,124 @@ def run(ctx):
     ctx.floor('name_comparisons', 2)
     ctx.sample({'normalised_returns': sorted(f'{k[0]}[{k[1]}]' for k, v in an.ret_norm.items() if v and k[0] in ('QueryPlanner.resolve_database_table', 'PlanJoin.check_single_integration'))})
     ctx.sample({'normalised_dict_entries': sorted(f'{k[0]}[{k[1]!r}]' for k, v in an.dict_norm.items() if v)})
+
+
+def query_info_table(ctx):
+    """get_query_info interpreted on probe queries (stand-in traversal): which table references count as MindsDB entities, which integrations are
+    named.  -> list of (label, ok, message, line)"""
+    from ..interp import Interp, Obj, Raised, Env
+    qp = class_named(ctx.src.tree(QP), 'QueryPlanner')
+    gqi = function_named(qp, 'get_query_info')
+    rdt = function_named(qp, 'resolve_database_table')
+    ctx.need(gqi is not None and rdt is not None, 'get_query_info / resolve_database_table not found')
+    out = []
+
+    def traverse(it, query, callback, **kw):
+        for node, flags in query.attrs['_visits']:
+            callback(node, **flags)
+        return None
+    probes = [
+        ('CTE sales, FROM sales', ['sales'], [['sales']], [], set()),
+        ('CTE Sales, FROM Sales', ['Sales'], [['Sales']], [], set()),
+        ('CTE sales, FROM mindsdb.sales', ['sales'], [['mindsdb', 'sales']], [['mindsdb', 'sales']], set()),
+        ('CTE sales, FROM proj.sales', ['sales'], [['proj', 'sales']], [['proj', 'sales']], set()),
+        ('CTE sales, FROM int1.sales', ['sales'], [['int1', 'sales']], [], {'int1'}),
+        ('CTE t, FROM t and int1.x', ['t'], [['t'], ['int1', 'x']], [], {'int1'}),
+        ('no CTE, FROM int1.t', [], [['int1', 't']], [], {'int1'}),
+        ('no CTE, FROM INT1.t', [], [['INT1', 't']], [], {'int1'}),
+        ('no CTE, FROM int1.t, int2.u', [], [['int1', 't'], ['int2', 'u']], [], {'int1', 'int2'}),
+        ('no CTE, FROM proj.x', [], [['proj', 'x']], [['proj', 'x']], set()),
+        ('no CTE, FROM PROJ.x', [], [['PROJ', 'x']], [['PROJ', 'x']], set()),
+        ('no CTE, FROM t (default namespace is a project)', [], [['t']], [['t']], set()),
+        ('CTE a and B, FROM a, B, int1.c', ['a', 'B'], [['a'], ['B'], ['int1', 'c']], [], {'int1'}),
+    ]
+    for label, ctes, refs, want_entities, want_ints in probes:
+        nodes = [Obj('Identifier', parts=list(r), alias=None) for r in refs]
+        query = Obj('Select', cte=[Obj('CommonTableExpression', name=Obj('Identifier', parts=[c], alias=None), query=Obj('Select')) for c in ctes] or None,
+                    _visits=[(n, dict(is_table=True, is_target=False, parent_query=None, callstack=[])) for n in nodes])
+        self_ = Obj('QueryPlanner', projects=['mindsdb', 'proj'], databases=['int1', 'int2', 'mindsdb', 'proj'], integrations={'int1': {}, 'int2': {}},
+                    default_namespace='mindsdb')
+        stubs = {'query_traversal': traverse,
+                 'self.is_predictor': lambda it, n: False,
+                 'Identifier': lambda it, *a, **k: Obj('Identifier', parts=list(k.get('parts') or []), alias=k.get('alias')),
+                 'self.resolve_database_table': lambda it, n: it.call_function(rdt, [self_, n], {}, Env())}
+        it = Interp({'Identifier': set(), 'Select': set(), 'Function': set(), 'NativeQuery': set(), 'Data': set()}, stubs)
+        try:
+            info = it.call_function(gqi, [self_, query], {}, Env())
+        except Raised as r:
+            out.append((label, False, f'get_query_info raises {r.exc_name} on [{label}]', gqi.lineno))
+            continue
+        got_e = [list(e.parts) for e in info['mdb_entities']]
+        got_i = set(info['integrations'])
+        out.append((label, got_e == want_entities and got_i == want_ints,
+                    f'[{label}] get_query_info reports MindsDB entities {got_e} and integrations {sorted(got_i)}; expected {want_entities} and {sorted(want_ints)}: a CTE '
+                    f'shadows exactly the unqualified name it was given, every other reference is classified by the database its first part resolves to', gqi.lineno))
+    return out
+
+
+def rewrite_table(ctx):
+    """Truth table of prepare_integration_select, interpreted on probe queries: the traversal is replaced by a stand-in that
+    visits the probe's nodes with the flags the real walker would pass.  -> list of (label, ok, message, line)"""
+    import itertools
+    from ..interp import Interp, Obj, Raised, Env
+    qp = class_named(ctx.src.tree(QP), 'QueryPlanner')
+    pis = function_named(qp, 'prepare_integration_select')
+    ctx.need(pis is not None, 'prepare_integration_select not found')
+    out = []
+    star = Obj('Star')
+    shapes = [(['int1', 'tbl', 'col'], True), (['INT1', 'tbl', 'col'], True), (['int1', 'tbl'], True), (['int1', 'tbl', star], True), (['Int1', star], True),
+              (['tbl', 'col'], False), (['col'], False), (['int1'], False), (['int2', 'tbl', 'col'], False), (['x', 'int1', 'col'], False)]
+    froms = {'table': Obj('Identifier', parts=['int1', 'tbl'], alias=None), 'join': Obj('Join'), 'no-from': None, 'not-a-query': 'absent'}
+
+    def traverse(it, query, callback, **kw):
+        for node, flags in query.attrs['_visits']:
+            r = callback(node, **flags)
+            if r is not None:
+                query.attrs['_replaced'] = True
+        return None
+    for (parts, strip), is_table, is_target, has_alias, fk, other_alias in itertools.product(shapes, (False, True), (False, True), (False, True), froms, (False, True)):
+        if is_table and is_target:
+            continue
+        alias0 = Obj('Identifier', parts=['al'], alias=None) if has_alias else None
+        node = Obj('Identifier', parts=list(parts), alias=alias0)
+        parent = Obj('Insert') if fk == 'not-a-query' else Obj('Select', from_table=froms[fk])
+        visits = [(node, dict(is_table=is_table, is_target=is_target, parent_query=parent, callstack=[]))]
+        other = None
+        if other_alias:
+            # another table of the same integration whose alias is spelled like the integration
+            other = Obj('Identifier', parts=['int1', 'u'], alias=Obj('Identifier', parts=['int1'], alias=None))
+            visits.insert(0, (other, dict(is_table=True, is_target=False, parent_query=parent, callstack=[])))
+        query = Obj('Select', _visits=visits)
+        stubs = {'Identifier': lambda it, *a, **k: Obj('Identifier', parts=list(k.get('parts') or (a[0].split('.') if a else [])), alias=k.get('alias')),
+                 'query_traversal': traverse}
+        it = Interp({'Join': set(), 'Identifier': set(), 'Select': set()}, stubs)
+        label = (f'parts={[p if isinstance(p, str) else "*" for p in parts]} is_table={is_table} is_target={is_target} alias={has_alias} from={fk}'
+                 + (' other-table-aliased-like-the-integration' if other_alias else ''))
+        try:
+            it.call_function(pis, [Obj('QueryPlanner'), 'int1', query], {}, Env())
+        except Raised as r:
+            out.append((f'raises:{label}', False, f'prepare_integration_select raises {r.exc_name} on [{label}]', pis.lineno))
+            continue
+        want_parts = list(parts[1:]) if strip else list(parts)
+        out.append((f'strip:{label}', node.parts == want_parts,
+                    f'[{label}] the identifier becomes {[p if isinstance(p, str) else "*" for p in node.parts]}, expected '
+                    f'{[p if isinstance(p, str) else "*" for p in want_parts]}: the integration qualifier is removed exactly when the name has more than one part and '
+                    f'its first part is the integration (any letter case), whatever the position of the identifier and whatever else is in the query', pis.lineno))
+        last = want_parts[-1]
+        want_alias_new = (not is_table and is_target and not has_alias and fk in ('table', 'no-from') and isinstance(last, str))
+        got_alias = node.alias
+        if want_alias_new:
+            ok = isinstance(got_alias, Obj) and got_alias is not alias0 and got_alias.parts == [last]
+        else:
+            ok = got_alias is alias0
+        out.append((f'alias:{label}', ok,
+                    f'[{label}] alias after the rewrite: {got_alias!r}; an alias (the own last part) is added only to a bare target column of a select that is not a join, '
+                    f'an existing alias is never touched', pis.lineno))
+        out.append((f'no-replacement:{label}', not query.attrs.get('_replaced'), f'[{label}] the callback returns a value: query_traversal would replace the node', pis.lineno))
+        if other is not None:
+            out.append((f'other:{label}', other.parts == ['u'] and other.alias.parts == ['int1'], f'[{label}] the aliased table int1.u AS int1 became {other.parts} AS {other.alias.parts}',
+                        pis.lineno))
+    return out
 
 
 def _implies_no_model(t, pol):
